@@ -256,6 +256,77 @@ class RowSeq(SymSeq):
         return self
 
 
+class AbsGc:
+    """identity of a managed non-object allocation Ref<T> (fibers' waiters, channel queues, modules, ...)"""
+    __slots__ = ('id', 'ty')
+
+    def __init__(self, gid, ty):
+        self.id = gid
+        self.ty = ty
+
+    @property
+    def rust_ty(self):
+        return 'Ref<' + self.ty + '>'
+
+    def copy_value(self, eng):
+        return self
+
+    def bind_elem(self, eng, backing):
+        eng.add_constraint(backing.child('id').leaf(eng, z3.BitVecSort(64)) == self.id)
+
+    def data_cell(self, eng):
+        key = ('gcdata', self.id.sexpr(), norm_ty(self.ty))
+        c = eng.memo.get(key)
+        if c is None:
+            c = Cell(HeapObjStruct(norm_ty(self.ty), self.id))
+            eng.memo[key] = c
+            eng.memo[('cellobj', id(c))] = self
+        return c
+
+    def ptr_binop(self, eng, op, a, b):
+        if isinstance(a, AbsGc) and isinstance(b, AbsGc):
+            if op == 'Eq':
+                return as_bool(z3.simplify(a.id == b.id))
+            if op == 'Ne':
+                return as_bool(z3.simplify(a.id != b.id))
+        raise Unsupported('Ref binop ' + op)
+
+    def __repr__(self):
+        return f'gc<{self.ty}>({_short(self.id)})'
+
+
+def install_gc_refs(eng, exclude=()):
+    """Ref<T> as identities with heap-indexed data (for every T except those listed)"""
+    def mat_gc(e, ty, backing):
+        t = norm_ty(ty)
+        inner = ty_args(t)[0]
+        if ty_head(inner) in exclude:
+            return NotImplemented
+        return AbsGc(backing.child('id').leaf(e, z3.BitVecSort(64)), inner)
+    eng.materialiser(r'^(laythe_core::)?(reference::)?Ref<.*>$', mat_gc)
+
+    def m_deref(e, a, c):
+        v = a[0]
+        while isinstance(v, Ref):
+            v = v.cell.get(e)
+        if not isinstance(v, AbsGc):
+            return NotImplemented
+        return Ref(v.data_cell(e))
+    eng.model(r'^<(laythe_core::)?(reference::)?Ref as (std::ops::|core::ops::)?Deref(Mut)?>::deref(_mut)?$', m_deref)
+
+    def m_eq(e, a, c):
+        x, y = a
+        while isinstance(x, Ref):
+            x = x.cell.get(e)
+        while isinstance(y, Ref):
+            y = y.cell.get(e)
+        if not isinstance(x, AbsGc):
+            return NotImplemented
+        r = as_bool(z3.simplify(x.id == y.id))
+        return r if c.norm.endswith('::eq') else b_not(r)
+    eng.model(r'^<(laythe_core::)?(reference::)?Ref as (std::cmp::|core::cmp::)?PartialEq>::(eq|ne)$', m_eq)
+
+
 class AbsUVec:
     """UniqueVector<T, H>: buffer (SymSeq whose len is the capacity) + length"""
     rust_ty = 'UniqueVector'
